@@ -25,6 +25,16 @@ fn usage() -> ! {
 }
 
 fn on_timeout(prop: &str, label: &str, replay_json: &str) {
+    if std::env::var("HCSIM_HANG_DEBUG").is_ok() {
+        // developer aid: show where the threads are before giving up
+        let pid = std::process::id().to_string();
+        let out = std::process::Command::new("gdb")
+            .args(["-p", &pid, "-batch", "-ex", "thread apply all bt 25"])
+            .output();
+        if let Ok(o) = out {
+            eprintln!("{}", String::from_utf8_lossy(&o.stdout));
+        }
+    }
     // a call never returned within the wall limit: persist the pre-written trace and stop
     let dir = harness::verif_dir().join("replays");
     let _ = std::fs::create_dir_all(&dir);
@@ -41,9 +51,24 @@ fn on_timeout(prop: &str, label: &str, replay_json: &str) {
         println!("REPRODUCED clause=HANG.wall (call did not return)");
         std::process::exit(1);
     }
-    println!("violation detail: clause=HANG.wall {label}: a call into the crate consumed the CPU-time limit without returning");
-    println!("VIOLATION property={prop} replay={}", p.display());
-    std::process::exit(1);
+    // Same rule as for every other violation: it is only reported if replaying the recorded
+    // case in a fresh process reproduces it. (A stall that does not replay has been seen once,
+    // in a cache arm of C14; cause unknown, possibly inside a dependency.)
+    let exe = std::env::current_exe().unwrap();
+    let st = std::process::Command::new(exe).arg("replay").arg(&p).arg("--quiet").status();
+    if matches!(&st, Ok(s) if s.code() == Some(1)) {
+        println!("violation detail: clause=HANG.wall {label}: a call into the crate consumed the CPU-time limit without returning");
+        println!("VIOLATION property={prop} replay={}", p.display());
+        std::process::exit(1);
+    }
+    static UNCONFIRMED: std::sync::atomic::AtomicU64 = std::sync::atomic::AtomicU64::new(0);
+    let n = UNCONFIRMED.fetch_add(1, std::sync::atomic::Ordering::SeqCst) + 1;
+    eprintln!("harness note: a call in {label} consumed the CPU-time limit, but replaying the case in a fresh process returns normally; not reported (occurrence {n})");
+    let _ = std::fs::remove_file(&p);
+    if n >= 3 {
+        eprintln!("harness error: repeated stalls that do not replay");
+        std::process::exit(2);
+    }
 }
 
 fn main() {
